@@ -6,7 +6,7 @@ P="$1"; shift
 export GOFLAGS=-mod=mod GOPROXY=off GOSUMDB=off GOTOOLCHAIN=local
 W=/tmp/alt.$$; PD=/tmp/altpatch.$$; OUT=/tmp/altout.$$; BD=/verif/.build-alt/$$
 cleanup() { git -C /repo worktree remove --force "$W" 2>/dev/null; rm -rf "$PD" "$OUT" "$BD"; }
-trap cleanup EXIT
+trap cleanup EXIT; [ -n "${ALT_KEEP:-}" ] && trap - EXIT
 git -C /repo worktree add -q --detach "$W" HEAD || exit 9
 ( cd "$W" && git apply "$P" ) || { echo "patch does not apply: $P"; exit 9; }
 if ( cd "$W" && git status --porcelain | grep -v '^ M' | grep -q . ); then echo "patch adds or deletes files: use trymutant.sh"; exit 9; fi
